@@ -362,3 +362,80 @@ def c18(tier, seed, work):
 
 
 CHECKS.update({"C18": c18})
+
+
+# ----------------------------------------------------------------- vectors (pure layer behaviour)
+VEC_ASSUME = ["TLC 1.8 evaluates the specification tables (Layout/LayerTables/Prims/Wire) into (bytes, expected) pairs; the harness "
+              "applies them to the library's exported layers and copies TLC's expectation through; TLC (TraceVec.tla) judges equality",
+              "fields wider than 8 bits are enumerated at boundaries and walking ones, not exhaustively; cross products of fields are "
+              "sampled by two seeded base records, not enumerated"]
+
+
+def vec_check(pid, tier, seed, work, fam_specs, rule, level="exploration"):
+    fams = []
+    for fs in fam_specs:
+        fams.append(F.vector_family(work, **fs))
+    require_accepted(fams)
+    viols = []
+    for f in fams:
+        for v in f["viols"]:
+            for sg in v["sigs"]:
+                viols.append({"prop": sg["prop"], "pred": sg["pred"], "ctx": sg.get("ctx"),
+                              "where": {"family": f["name"], "vector_id": v.get("id"), "line": v["at"], "params": f["subst"]},
+                              "scripts_file": None})
+    for v in viols:
+        v.pop("scripts_file", None)
+    n = sum(f["scripts"] for f in fams)
+    samples = []
+    for f in fams[:3]:
+        try:
+            with open(f["scripts_file"]) as fh:
+                samples.append({"family": f["name"], "vector": json.loads(fh.readline())})
+        except Exception:
+            pass
+    classes = set()
+    for f in fams:
+        with open(f["scripts_file"]) as fh:
+            for line in fh:
+                try:
+                    d = json.loads(line)
+                    classes.add((d.get("layer"), d.get("class")))
+                except Exception:
+                    pass
+    cov = {"evaluations": n, "distinct_nontrivial": len(classes), "rule": rule + " distinct_nontrivial counts distinct (layer, class) pairs, "
+           "a class being the field that varies / the malformation / the ordered pair kind.",
+           "families": fam_cov(fams), "samples": samples, "exhaustive": False}
+    return {"level": level, "coverage": cov, "viols": viols, "assumptions": VEC_ASSUME}
+
+
+def _vf(name, family, tier, seed, module="MCGenVec", tpl="Gen_Vec.cfg.tpl"):
+    return dict(name=name, module=module, cfg_tpl=tpl, family=family, tier=tier, seed=seed)
+
+
+def c07(tier, seed, work):
+    return vec_check("C07", tier, seed, work, [_vf("c07-rsp", "rsp", tier, seed)],
+                     "Every response table of LayerTables.tla: each field over its whole domain around two seeded base records, optional "
+                     "tails, and every body length below the minimum (must be rejected).")
+
+
+def c06(tier, seed, work):
+    return vec_check("C06", tier, seed, work, [_vf("c06-req", "req", tier, seed)],
+                     "Every request table of LayerTables.tla serialised by the library and compared byte-for-byte with Layout!Encode: each "
+                     "field over its whole domain; Get Session Info in its three forms; Close Session by ID and by handle.")
+
+
+def c17(tier, seed, work):
+    return vec_check("C17", tier, seed, work, [_vf("c17-reuse", "reuse", tier, seed)],
+                     "For every tabulated response layer every ordered pair (earlier, later) of members of different classes (full, other "
+                     "values, all zeros, all ones, with/without optional tail, short forms): decode later into the used value and into a "
+                     "fresh one; TLC requires equality.")
+
+
+def c05(tier, seed, work):
+    return vec_check("C05", tier, seed, work, [_vf("c05-total", "totality", tier, seed)],
+                     "Totality of every decodable layer (28 layers): pseudo-random strings of many lengths incl. 500..512, constant strings, "
+                     "every prefix and single-byte substitution {00,7F,80,FF} at every offset of valid encodings; each decoded on an "
+                     "exact-capacity slice and inside a 512-byte buffer with two fillings (results must agree).")
+
+
+CHECKS.update({"C05": c05, "C06": c06, "C07": c07, "C17": c17})
